@@ -176,14 +176,29 @@ func selectAddrFromSubnetOffset(net1 *phantomNet, offset *big.Int) (*PhantomIP, 
 	}
 
 	ipBigInt := &big.Int{}
+	ipLen := 0
 	if v4net := net1.IP.To4(); v4net != nil {
-		ipBigInt.SetBytes(net1.IP.To4())
+		ipBigInt.SetBytes(v4net)
+		ipLen = net.IPv4len
 	} else if v6net := net1.IP.To16(); v6net != nil {
-		ipBigInt.SetBytes(net1.IP.To16())
+		ipBigInt.SetBytes(v6net)
+		ipLen = net.IPv6len
 	}
 
 	ipBigInt.Add(ipBigInt, offset)
-	ip := net.IP(ipBigInt.Bytes())
+	ip := bigIntToIP(ipBigInt, ipLen)
 
 	return &PhantomIP{ip: &ip, supportRandomPort: net1.supportRandomPort}, nil
+}
+
+// bigIntToIP returns v as an address of n bytes. big.Int.Bytes drops leading zero bytes, so
+// addresses in networks such as 0.5.0.0/16 or 64:ff9b::/96 have to be padded back to full length.
+func bigIntToIP(v *big.Int, n int) net.IP {
+	b := v.Bytes()
+	if len(b) >= n {
+		return net.IP(b)
+	}
+	ip := make(net.IP, n)
+	copy(ip[n-len(b):], b)
+	return ip
 }
